@@ -73,6 +73,52 @@ def c_sarabandi(c):
     _post(c, qq, R)
     c.observe('q', qq)
 
-NOT_COVERED = ["itzhack versions 1-3 (np.linalg.eig: needs the eigen-lemmas of DESIGN 3/C02; not yet discharged)",
+NOT_COVERED = ["itzhack version 1 (matrix K2) and whatever the itzhack units leave undischarged (np.linalg.eig is an assumed contract E1/E2)",
                "float-regime clauses (within 1e-12 of identity / of a half-turn) beyond their exact real limits"]
 EXCLUSIONS = ["closed-form methods (chiaverini, hughes, sarabandi): |q_w| >= 5e-7, i.e. rotation angle <= pi - 1e-6 rad (the property's own bound)"]
+
+
+# ----------------------------------------------------------------------------------------- Bar-Itzhack (eig)
+def _itzhack_lemmas(c, q):
+    """ghost lemmas stated when np.linalg.eig is called inside itzhack (versions 2, 3: matrix K3).  eig itself is an
+    ASSUMED dependency contract (E1/E2: real orthonormal eigenbasis of a symmetric matrix); everything derived from
+    it here is an obligation: K3 = (4 u u^T - I)/3 with u = (x, y, z, -w), hence every eigenpair has (u.v)^2 in {0, 1}
+    and eigenvalue in {1, -1/3}, and sum_j (u.v_j)^2 = 1, so exactly one eigenvector is +-u."""
+    from rvc.core import E
+    w, x, y, z = q
+    u = np.array([x, y, z, -w], dtype=object)
+
+    def hook(K, lam, V):
+        n = 4
+        for i in range(n):
+            for j in range(n):
+                c.lemma(f'K3=(4uu^T-I)/3[{i},{j}]', eq(K[i, j] * 3, 4 * u[i] * u[j] - (1 if i == j else 0)))
+        cs = [dot(u, V[:, j]) for j in range(n)]
+        c.lemma('sum_j (u.v_j)^2 = 1', eq(sum(cj * cj for cj in cs), 1))
+        for j in range(n):
+            v = V[:, j]
+            c.lemma(f'lambda[{j}]=(4c^2-1)/3', eq(3 * lam[j], 4 * cs[j] * cs[j] - 1))
+            for i in range(n):
+                c.lemma(f'c(u-cv)=0[{j},{i}]', eq(cs[j] * (u[i] - cs[j] * v[i]), 0))
+            c.lemma(f'c^2 in {{0,1}}[{j}]', Or(eq(cs[j], 0), eq(cs[j] * cs[j], 1)))
+            c.lemma(f'lambda in {{1,-1/3}}[{j}]', Or(eq(lam[j], 1), eq(3 * lam[j], -1)))
+            c.lemma(f'v=cu when c!=0 [{j}]', Or(eq(cs[j], 0), And(*[eq(v[i], cs[j] * u[i]) for i in range(n)])))
+    E.hooks['eig'] = [hook]
+
+
+@contract('C02', 'itzhack', variants=[dict(version=3), dict(version=2)], optional=True, thorough_only=True, feas_timeout_ms=1500, budget_s=3000,
+          max_paths=200, cas=False, no_crosscheck=True, functions=['orientation.itzhack'])
+def c_itzhack(c):
+    """Bar-Itzhack versions 3 and 2 (eigenvector of K3): for every rotation, including half-turns and the identity"""
+    from rvc.core import E
+    q = c.unit_quat('q')
+    R = mat_of_quat(q)
+    if c.symbolic:
+        _itzhack_lemmas(c, q)
+    try:
+        qq = c.ahrs.common.orientation.itzhack(R, version=c.p['version'])
+    finally:
+        if c.symbolic:
+            E.hooks.pop('eig', None)
+    qq = np.asarray(qq)
+    _post(c, qq, R)
